@@ -73,13 +73,16 @@ Proof.
     simpl length. replace (Nat.min (pos + 2 + length b - pos) 1) with 1 by lia.
     simpl firstn at 2.
     rewrite <- app_assoc. simpl app.
-    rewrite <- Ha at 1. rewrite firstn_app, firstn_all, Nat.sub_diag. simpl firstn at 1. rewrite app_nil_r.
-    replace (pos + 1) with (length (a ++ [k])) by (rewrite app_length; simpl; lia).
-    replace (a ++ k :: b ++ [z]) with ((a ++ [k]) ++ b ++ [z]) by (rewrite <- app_assoc; reflexivity).
-    rewrite skipn_app, skipn_all, Nat.sub_diag. simpl skipn. simpl app.
-    replace (pos + 2 + length b - 1) with (length (a ++ z :: b)) by (rewrite app_length; simpl; lia).
+    assert (E1 : firstn pos (a ++ k :: b ++ [z]) = a).
+    { rewrite <- Ha. rewrite firstn_app, firstn_all, Nat.sub_diag. simpl. apply app_nil_r. }
+    assert (E2 : skipn (pos + 1) (a ++ k :: b ++ [z]) = b ++ [z]).
+    { replace (a ++ k :: b ++ [z]) with ((a ++ [k]) ++ b ++ [z]) by (rewrite <- app_assoc; reflexivity).
+      assert (E : length (a ++ [k]) = pos + 1) by (rewrite app_length; simpl; lia).
+      rewrite skipn_app, E, Nat.sub_diag. rewrite skipn_all2 by lia. reflexivity. }
+    rewrite E1, E2.
     replace (a ++ z :: b ++ [z]) with ((a ++ z :: b) ++ [z]) by (rewrite <- app_assoc; reflexivity).
-    rewrite firstn_app, firstn_all, Nat.sub_diag. simpl. rewrite app_nil_r. reflexivity.
+    assert (E3 : length (a ++ z :: b) = pos + 2 + length b - 1) by (rewrite app_length; simpl; lia).
+    rewrite <- E3. rewrite firstn_app, firstn_all, Nat.sub_diag. simpl. apply app_nil_r.
 Qed.
 
 Lemma remove_unordered_1_spec (l : list nat) pos k :
@@ -107,5 +110,1068 @@ Proof.
         -- apply (Permutation_in x (Permutation_sym Hperm)). right. exact Hx.
         -- intros ->. contradiction.
       * intros [Hx Hne]. apply (Permutation_in x Hperm) in Hx. destruct Hx as [Hx|Hx]; [congruence|exact Hx].
-    + rewrite !app_length. simpl. rewrite !app_length. simpl. lia.
+    + repeat (rewrite app_length; simpl). lia.
 Qed.
+
+(* ================================================================================================ *)
+(* chans.Merge / chans.Replicate *)
+Module CMP.
+Import CM.
+
+Definition dch : chan := mkCh 0 [] false.
+Definition chn (s : st) (k : nat) : chan := nth k (chs s) dch.
+Definition ret_pc (p : lpc) : bool := match p with LRetp | LDone => true | _ => false end.
+(* the value the call holds between receiving and sending it *)
+Definition hand (s : st) : list (nat * Z) := match pc s with LHand k v _ => [(k, v)] | _ => [] end.
+(* the sub-sequence of a tagged sequence that came from input k *)
+Definition from (k : nat) (l : list (nat * Z)) : list Z := map snd (filter (fun p => Nat.eqb (fst p) k) l).
+Definition out_seq (s : st) (j : nat) : list (nat * Z) := nth j (outs s) [].
+
+Ltac inv_step Hs :=
+  unfold step in Hs;
+  repeat match type of Hs with
+         | context [match ?x with _ => _ end] => destruct x eqn:?
+         end;
+  try discriminate Hs; inversion Hs; subst; clear Hs.
+
+Definition frame (s s' : st) : Prop :=
+  knd s' = knd s /\ nin s' = nin s /\ nout s' = nout s
+  /\ length (prods s') = length (prods s) /\ length (conss s') = length (conss s)
+  /\ length (chs s') = length (chs s) /\ length (produced s') = length (produced s)
+  /\ length (gots s') = length (gots s) /\ length (seen_closed s') = length (seen_closed s)
+  /\ length (outs s') = length (outs s) /\ length (taken s') = length (taken s)
+  /\ length (live s') = length (live s).
+
+Lemma frame_on_closed s pos k : frame s (on_closed s pos k).
+Proof.
+  unfold frame, on_closed. destruct (knd s) eqn:Ek; simpl; rewrite ?upd_length; repeat split; auto.
+Qed.
+
+Lemma frame_take_value s k v : frame s (take_value s k v).
+Proof. unfold frame, take_value. simpl. rewrite ?snoc_at_length. repeat split; auto. Qed.
+
+Lemma frame_trans s1 s2 s3 : frame s1 s2 -> frame s2 s3 -> frame s1 s3.
+Proof. unfold frame. intuition congruence. Qed.
+
+Lemma step_frame s l s' : step s l = Some s' -> frame s s'.
+Proof.
+  intros Hs. inv_step Hs;
+    try (eapply frame_trans; [|apply frame_take_value]);
+    try apply frame_on_closed;
+    unfold frame; simpl; rewrite ?upd_length, ?snoc_at_length; repeat split; reflexivity.
+Qed.
+
+(* ---- what each label does (inversion lemmas) ---- *)
+Lemma step_LCmd s k c s' : step s (LCmd k c) = Some s' ->
+  exists p, nth_error (prods s) k = Some p /\ s' = with_prods s (upd (prods s) k (mkP (p_q p ++ [c]) (p_log p))).
+Proof. intros Hs. inv_step Hs. eauto. Qed.
+
+Lemma step_LPermit s j n s' : step s (LPermit j n) = Some s' ->
+  exists c, nth_error (conss s) j = Some c /\ s' = with_conss s (upd (conss s) j (mkC (c_permits c + n) (c_hand c))).
+Proof. intros Hs. inv_step Hs. eauto. Qed.
+
+Lemma step_TProdBuf s k s' : step s (TProdBuf k) = Some s' ->
+  exists v q c, nth_error (prods s) k = Some (mkP (CSend v :: q) PNone) /\ nth_error (chs s) k = Some c
+    /\ closed c = false /\ length (buf c) < cap c
+    /\ s' = with_produced (with_prods (with_chs s (upd (chs s) k (set_buf c (buf c ++ [v]))))
+                                      (upd (prods s) k (mkP q (PSent v))))
+                          (snoc_at (produced s) k v).
+Proof.
+  intros Hs. inv_step Hs.
+  match goal with H : negb _ && _ = true |- _ => apply andb_prop in H; destruct H as [Hc Hl] end.
+  apply negb_true_iff in Hc. apply Nat.ltb_lt in Hl. repeat eexists; eauto.
+Qed.
+
+Lemma step_TProdClose s k s' : step s (TProdClose k) = Some s' ->
+  exists q c, nth_error (prods s) k = Some (mkP (CClose :: q) PNone) /\ nth_error (chs s) k = Some c
+    /\ closed c = false
+    /\ s' = with_prods (with_chs s (upd (chs s) k (mkCh (cap c) (buf c) true))) (upd (prods s) k (mkP q PClosed)).
+Proof. intros Hs. inv_step Hs. repeat eexists; eauto. Qed.
+
+Lemma step_LSent s k v s' : step s (LSent k v) = Some s' ->
+  exists q, nth_error (prods s) k = Some (mkP q (PSent v)) /\ s' = with_prods s (upd (prods s) k (mkP q PNone)).
+Proof.
+  intros Hs. inv_step Hs. match goal with H : Z.eqb _ _ = true |- _ => apply Z.eqb_eq in H; subst end. eauto.
+Qed.
+
+Lemma step_LClosed s k s' : step s (LClosed k) = Some s' ->
+  exists q, nth_error (prods s) k = Some (mkP q PClosed) /\ s' = with_prods s (upd (prods s) k (mkP q PNone)).
+Proof. intros Hs. inv_step Hs. eauto. Qed.
+
+Inductive recv_case (s : st) (pos : nat) (s' : st) : Prop :=
+| RcValue k c v b :
+    sel s pos = Some k -> nth_error (chs s) k = Some c -> buf c = v :: b ->
+    s' = take_value (with_chs s (upd (chs s) k (set_buf c b))) k v -> recv_case s pos s'
+| RcClosed k c :
+    sel s pos = Some k -> nth_error (chs s) k = Some c -> buf c = [] -> closed c = true ->
+    s' = on_closed s pos k -> recv_case s pos s'
+| RcRendezvous k c v q :
+    sel s pos = Some k -> nth_error (chs s) k = Some c -> buf c = [] -> closed c = false -> cap c = 0 ->
+    nth_error (prods s) k = Some (mkP (CSend v :: q) PNone) ->
+    s' = take_value (with_produced (with_prods s (upd (prods s) k (mkP q (PSent v)))) (snoc_at (produced s) k v)) k v ->
+    recv_case s pos s'.
+
+Lemma step_TLibRecv s pos s' : step s (TLibRecv pos) = Some s' -> pc s = LLoop /\ recv_case s pos s'.
+Proof.
+  intros Hs. unfold step in Hs.
+  destruct (pc s) eqn:Epc; try discriminate Hs.
+  destruct (sel s pos) as [k|] eqn:Esel; try discriminate Hs.
+  destruct (nth_error (chs s) k) as [c|] eqn:Ec; try discriminate Hs.
+  split; [reflexivity|].
+  destruct (buf c) as [|v b] eqn:Eb.
+  - destruct (closed c) eqn:Ecl.
+    + inversion Hs; subst. eapply RcClosed; eauto.
+    + destruct (cap c) eqn:Ecap; try discriminate Hs.
+      destruct (nth_error (prods s) k) as [[q lg]|] eqn:Ep; try discriminate Hs.
+      destruct q as [|[v|] q]; try discriminate Hs.
+      destruct lg; try discriminate Hs.
+      inversion Hs; subst. eapply RcRendezvous; eauto.
+  - inversion Hs; subst. eapply RcValue; eauto.
+Qed.
+
+Inductive send_case (s : st) (s' : st) : Prop :=
+| ScBuffer k v j c cn :
+    pc s = LHand k v j -> nth_error (chs s) (nin s + j) = Some c -> nth_error (conss s) j = Some cn ->
+    length (buf c) < cap c ->
+    s' = with_pc (with_outs (with_chs s (upd (chs s) (nin s + j) (set_buf c (buf c ++ [v])))) (snoc_at (outs s) j (k, v)))
+                 (hand_or_loop s k v (S j)) -> send_case s s'
+| ScRendezvous k v j c p :
+    pc s = LHand k v j -> nth_error (chs s) (nin s + j) = Some c -> nth_error (conss s) j = Some (mkC (S p) None) ->
+    cap c = 0 ->
+    s' = with_pc (with_taken (with_outs (with_conss s (upd (conss s) j (mkC p (Some v)))) (snoc_at (outs s) j (k, v)))
+                             (snoc_at (taken s) j v))
+                 (hand_or_loop s k v (S j)) -> send_case s s'.
+
+Lemma step_TLibSend s s' : step s TLibSend = Some s' -> send_case s s'.
+Proof.
+  intros Hs. unfold step in Hs.
+  destruct (pc s) as [| |k v j| |] eqn:Epc; try discriminate Hs.
+  destruct (nth_error (chs s) (nin s + j)) as [c|] eqn:Ec; try discriminate Hs.
+  destruct (nth_error (conss s) j) as [cn|] eqn:Ecn; try discriminate Hs.
+  destruct (Nat.ltb (length (buf c)) (cap c)) eqn:El.
+  - inversion Hs; subst. apply Nat.ltb_lt in El. eapply ScBuffer; eauto.
+  - destruct (cap c) eqn:Ecap; try discriminate Hs.
+    destruct cn as [pm hd]. simpl in Hs. destruct pm as [|pm]; try discriminate Hs.
+    destruct hd; try discriminate Hs. inversion Hs; subst.
+    exact (ScRendezvous s _ k v j c pm Epc Ec Ecn Ecap eq_refl).
+Qed.
+
+Lemma step_TConsTake s j s' : step s (TConsTake j) = Some s' ->
+  exists p c v b, nth_error (conss s) j = Some (mkC (S p) None) /\ nth_error (chs s) (nin s + j) = Some c
+    /\ buf c = v :: b
+    /\ s' = with_taken (with_conss (with_chs s (upd (chs s) (nin s + j) (set_buf c b))) (upd (conss s) j (mkC p (Some v))))
+                       (snoc_at (taken s) j v).
+Proof. intros Hs. inv_step Hs. repeat eexists; eauto. Qed.
+
+Lemma step_LRecvd s j v s' : step s (LRecvd j v) = Some s' ->
+  exists p, nth_error (conss s) j = Some (mkC p (Some v)) /\ s' = with_conss s (upd (conss s) j (mkC p None)).
+Proof.
+  intros Hs. inv_step Hs. match goal with H : Z.eqb _ _ = true |- _ => apply Z.eqb_eq in H; subst end. eauto.
+Qed.
+
+Lemma step_LStart s s' : step s LStart = Some s' -> pc s = LInit /\ s' = with_pc s LLoop.
+Proof. intros Hs. inv_step Hs. auto. Qed.
+Lemma step_LRet s s' : step s LRet = Some s' -> pc s = LRetp /\ s' = with_pc s LDone.
+Proof. intros Hs. inv_step Hs. auto. Qed.
+Lemma step_TLibExit s s' : step s TLibExit = Some s' -> knd s = KMR /\ pc s = LLoop /\ cases s = [] /\ s' = with_pc s LRetp.
+Proof. intros Hs. inv_step Hs. auto. Qed.
+Lemma step_LQuiesce s s' : step s LQuiesce = Some s' -> False.
+Proof. discriminate. Qed.
+
+(* ---- the invariant ---- *)
+Definition count_true (l : list bool) : nat := length (filter (fun b => b) l).
+Definition vals (s : st) (j : nat) : list Z := map snd (out_seq s j).
+
+Definition sel_ok (s : st) : Prop :=
+  match knd s with
+  | KM1 | KRep => ret_pc (pc s) = true <-> nth 0 (seen_closed s) false = true
+  | KM2 | KM3 =>
+      (forall k, k < nin s -> nth k (live s) false = negb (nth k (seen_closed s) false))
+      /\ ndone s = count_true (seen_closed s)
+      /\ (if ret_pc (pc s) then ndone s = nin s else ndone s < nin s)
+  | KMR =>
+      NoDup (cases s)
+      /\ (forall k, In k (cases s) <-> k < nin s /\ nth k (seen_closed s) false = false)
+      /\ (ret_pc (pc s) = true -> cases s = [])
+  end.
+
+Definition rep_ok (s : st) : Prop :=
+  match pc s with
+  | LHand k v j =>
+      exists g0, nth 0 (gots s) [] = g0 ++ [v]
+                 /\ forall j', j' < nout s -> vals s j' = if Nat.ltb j' j then g0 ++ [v] else g0
+  | _ => forall j', j' < nout s -> vals s j' = nth 0 (gots s) []
+  end.
+
+Record Inv (s : st) : Prop := {
+  i_prods : length (prods s) = nin s;
+  i_conss : length (conss s) = nout s;
+  i_chs : length (chs s) = nin s + nout s;
+  i_produced : length (produced s) = nin s;
+  i_gots : length (gots s) = nin s;
+  i_seen : length (seen_closed s) = nin s;
+  i_outs : length (outs s) = nout s;
+  i_taken : length (taken s) = nout s;
+  i_live : length (live s) = nin s;
+  i_kind : match knd s with KM1 | KRep => nin s = 1 | KM2 => nin s = 2 | KM3 => nin s = 3 | KMR => True end;
+  i_out1 : knd s <> KRep -> nout s = 1;
+  i_hand : forall k v j, pc s = LHand k v j -> k < nin s /\ j < nout s /\ (knd s <> KRep -> j = 0);
+  i_cap : forall i, i < nin s + nout s -> length (buf (chn s i)) <= cap (chn s i);
+  i_in : forall k, k < nin s -> nth k (produced s) [] = nth k (gots s) [] ++ buf (chn s k);
+  i_out : forall j, j < nout s -> vals s j = nth j (taken s) [] ++ buf (chn s (nin s + j));
+  i_seen_closed : forall k, k < nin s -> nth k (seen_closed s) false = true ->
+                            closed (chn s k) = true /\ buf (chn s k) = [];
+  i_sel : sel_ok s;
+  i_tags : forall j, j < nout s -> Forall (fun p => fst p < nin s) (out_seq s j);
+  i_merge : knd s <> KRep -> forall k, k < nin s -> from k (out_seq s 0 ++ hand s) = nth k (gots s) [];
+  i_rep : knd s = KRep -> rep_ok s
+}.
+
+Lemma chn_some s i c : nth_error (chs s) i = Some c -> chn s i = c /\ i < length (chs s).
+Proof. intros H. unfold chn. apply nth_error_nth_len. exact H. Qed.
+
+Lemma from_app k l1 l2 : from k (l1 ++ l2) = from k l1 ++ from k l2.
+Proof. unfold from. rewrite filter_app, map_app. reflexivity. Qed.
+
+Lemma from_single k k' v : from k [(k', v)] = if Nat.eqb k' k then [v] else [].
+Proof. unfold from. simpl. destruct (Nat.eqb k' k); reflexivity. Qed.
+
+Lemma count_true_upd l k :
+  k < length l -> nth k l false = false -> count_true (upd l k true) = S (count_true l).
+Proof.
+  unfold count_true. revert k. induction l as [|b l IH]; intros k Hk Hn; simpl in *; [lia|].
+  destruct k as [|k]; simpl.
+  - subst b. reflexivity.
+  - destruct b; simpl; rewrite IH by (auto; lia); reflexivity.
+Qed.
+
+
+(* ---- preservation, label by label ---- *)
+Ltac same HI :=
+  first [ exact (i_prods _ HI) | exact (i_conss _ HI) | exact (i_chs _ HI) | exact (i_produced _ HI)
+        | exact (i_gots _ HI) | exact (i_seen _ HI) | exact (i_outs _ HI) | exact (i_taken _ HI)
+        | exact (i_live _ HI) | exact (i_kind _ HI) | exact (i_out1 _ HI) | exact (i_hand _ HI)
+        | exact (i_cap _ HI) | exact (i_in _ HI) | exact (i_out _ HI) | exact (i_seen_closed _ HI)
+        | exact (i_sel _ HI) | exact (i_tags _ HI) | exact (i_merge _ HI) | exact (i_rep _ HI) ].
+Ltac fin HI := simpl; rewrite ?upd_length, ?snoc_at_length; same HI.
+
+Lemma inv_LCmd s k c s' : Inv s -> step s (LCmd k c) = Some s' -> Inv s'.
+Proof.
+  intros HI Hs. destruct (step_LCmd _ _ _ _ Hs) as (p & Hp & ->).
+  constructor; try same HI; fin HI.
+Qed.
+
+Lemma inv_LPermit s j n s' : Inv s -> step s (LPermit j n) = Some s' -> Inv s'.
+Proof.
+  intros HI Hs. destruct (step_LPermit _ _ _ _ Hs) as (p & Hp & ->).
+  constructor; try same HI; fin HI.
+Qed.
+
+Lemma inv_LSent s k v s' : Inv s -> step s (LSent k v) = Some s' -> Inv s'.
+Proof.
+  intros HI Hs. destruct (step_LSent _ _ _ _ Hs) as (p & Hp & ->).
+  constructor; try same HI; fin HI.
+Qed.
+
+Lemma inv_LClosed s k s' : Inv s -> step s (LClosed k) = Some s' -> Inv s'.
+Proof.
+  intros HI Hs. destruct (step_LClosed _ _ _ Hs) as (p & Hp & ->).
+  constructor; try same HI; fin HI.
+Qed.
+
+Lemma inv_LRecvd s j v s' : Inv s -> step s (LRecvd j v) = Some s' -> Inv s'.
+Proof.
+  intros HI Hs. destruct (step_LRecvd _ _ _ _ Hs) as (p & Hp & ->).
+  constructor; try same HI; fin HI.
+Qed.
+
+(* a change of the program counter between two values that hold nothing *)
+Lemma inv_pc_move s p' :
+  Inv s -> (forall k v j, pc s <> LHand k v j) -> (forall k v j, p' <> LHand k v j) ->
+  (ret_pc (pc s) = true -> ret_pc p' = true) ->
+  (ret_pc p' = true -> ret_pc (pc s) = true \/ (knd s = KMR /\ cases s = [])) ->
+  Inv (with_pc s p').
+Proof.
+  intros HI Hold Hnew Hr1 Hr2.
+  assert (Hh : hand s = []) by (unfold hand; destruct (pc s); try reflexivity; exfalso; eapply Hold; eauto).
+  constructor; try same HI.
+  - intros k v j E. simpl in E. exfalso. eapply Hnew; eauto.
+  - generalize (i_sel _ HI). unfold sel_ok. simpl.
+    destruct (knd s) eqn:Ek.
+    + intros [A B]. split; intros X; [|auto].
+      destruct (ret_pc (pc s)) eqn:E2; [auto|]. exfalso. clear - Hr2 X Ek E2. intuition congruence.
+    + intros (A & B & C). split; [exact A|]. split; [exact B|].
+      destruct (ret_pc p') eqn:E1; destruct (ret_pc (pc s)) eqn:E2; try exact C;
+        exfalso; clear - Hr1 Hr2 Ek E1 E2; intuition congruence.
+    + intros (A & B & C). split; [exact A|]. split; [exact B|].
+      destruct (ret_pc p') eqn:E1; destruct (ret_pc (pc s)) eqn:E2; try exact C;
+        exfalso; clear - Hr1 Hr2 Ek E1 E2; intuition congruence.
+    + intros (A & B & C). split; [exact A|]. split; [exact B|].
+      intros X. destruct (ret_pc (pc s)) eqn:E2; [auto|]. clear - Hr2 X Ek E2. intuition congruence.
+    + intros [A B]. split; intros X; [|auto].
+      destruct (ret_pc (pc s)) eqn:E2; [auto|]. exfalso. clear - Hr2 X Ek E2. intuition congruence.
+  - intros Hk k Hlt. generalize (i_merge _ HI Hk k Hlt). rewrite Hh. unfold hand. simpl.
+    destruct p'; try (intros E; exact E). exfalso. eapply Hnew; eauto.
+  - intros Hk. generalize (i_rep _ HI Hk). unfold rep_ok. simpl.
+    destruct (pc s) eqn:E1; try (exfalso; eapply Hold; eauto; fail);
+      destruct p'; try (exfalso; eapply Hnew; eauto; fail); auto.
+Qed.
+
+Lemma inv_LStart s s' : Inv s -> step s LStart = Some s' -> Inv s'.
+Proof.
+  intros HI Hs. destruct (step_LStart _ _ Hs) as (Epc & ->).
+  apply inv_pc_move; auto; rewrite ?Epc; simpl; try discriminate; auto.
+Qed.
+
+Lemma inv_LRet s s' : Inv s -> step s LRet = Some s' -> Inv s'.
+Proof.
+  intros HI Hs. destruct (step_LRet _ _ Hs) as (Epc & ->).
+  apply inv_pc_move; auto; rewrite ?Epc; simpl; try discriminate; auto.
+Qed.
+
+Lemma inv_TLibExit s s' : Inv s -> step s TLibExit = Some s' -> Inv s'.
+Proof.
+  intros HI Hs. destruct (step_TLibExit _ _ Hs) as (Ek & Epc & Ec & ->).
+  apply inv_pc_move; auto; rewrite ?Epc; simpl; try discriminate; auto.
+Qed.
+
+Lemma prods_lt s k p : Inv s -> nth_error (prods s) k = Some p -> k < nin s.
+Proof. intros HI H. rewrite <- (i_prods _ HI). apply nth_error_Some. congruence. Qed.
+
+Lemma conss_lt s j c : Inv s -> nth_error (conss s) j = Some c -> j < nout s.
+Proof. intros HI H. rewrite <- (i_conss _ HI). apply nth_error_Some. congruence. Qed.
+
+Lemma inv_TProdBuf s k s' : Inv s -> step s (TProdBuf k) = Some s' -> Inv s'.
+Proof.
+  intros HI Hs. destruct (step_TProdBuf _ _ _ Hs) as (v & q & c & Hp & Hc & Hcl & Hlen & ->).
+  pose proof (prods_lt _ _ _ HI Hp) as Hk.
+  destruct (chn_some _ _ _ Hc) as [Ec Hkl].
+  constructor; try same HI; try (fin HI; fail).
+  - (* cap *) intros i Hi. unfold chn. simpl in *.
+    destruct (Nat.eq_dec k i) as [->|Hne].
+    + rewrite nth_upd_same by exact Hkl. simpl. rewrite app_length. simpl. lia.
+    + rewrite nth_upd_other by exact Hne. exact (i_cap _ HI i Hi).
+  - (* in *) intros k0 Hk0. unfold chn. simpl in *.
+    destruct (Nat.eq_dec k k0) as [->|Hne].
+    + rewrite nth_upd_same by exact Hkl. rewrite nth_snoc_at_same by (rewrite (i_produced _ HI); exact Hk0).
+      simpl. rewrite (i_in _ HI k0 Hk0), Ec. rewrite app_assoc. reflexivity.
+    + rewrite nth_upd_other by exact Hne. rewrite nth_snoc_at_other by exact Hne. exact (i_in _ HI k0 Hk0).
+  - (* out *) intros j Hj. unfold vals, out_seq, chn. simpl in *.
+    rewrite nth_upd_other by (simpl in Hk; lia). exact (i_out _ HI j Hj).
+  - (* seen_closed *) intros k0 Hk0 Hseen. unfold chn. simpl in *.
+    destruct (Nat.eq_dec k k0) as [->|Hne].
+    + destruct (i_seen_closed _ HI k0 Hk0 Hseen) as [A _]. rewrite Ec in A. congruence.
+    + rewrite nth_upd_other by exact Hne. exact (i_seen_closed _ HI k0 Hk0 Hseen).
+Qed.
+
+Lemma inv_TProdClose s k s' : Inv s -> step s (TProdClose k) = Some s' -> Inv s'.
+Proof.
+  intros HI Hs. destruct (step_TProdClose _ _ _ Hs) as (q & c & Hp & Hc & Hcl & ->).
+  pose proof (prods_lt _ _ _ HI Hp) as Hk.
+  destruct (chn_some _ _ _ Hc) as [Ec Hkl].
+  constructor; try same HI; try (fin HI; fail).
+  - intros i Hi. unfold chn. simpl in *.
+    destruct (Nat.eq_dec k i) as [->|Hne].
+    + rewrite nth_upd_same by exact Hkl. simpl. rewrite <- Ec. exact (i_cap _ HI i Hi).
+    + rewrite nth_upd_other by exact Hne. exact (i_cap _ HI i Hi).
+  - intros k0 Hk0. unfold chn. simpl in *.
+    destruct (Nat.eq_dec k k0) as [->|Hne].
+    + rewrite nth_upd_same by exact Hkl. simpl. rewrite (i_in _ HI k0 Hk0), Ec. reflexivity.
+    + rewrite nth_upd_other by exact Hne. exact (i_in _ HI k0 Hk0).
+  - intros j Hj. unfold vals, out_seq, chn. simpl in *.
+    rewrite nth_upd_other by (simpl in Hk; lia). exact (i_out _ HI j Hj).
+  - intros k0 Hk0 Hseen. unfold chn. simpl in *.
+    destruct (Nat.eq_dec k k0) as [->|Hne].
+    + destruct (i_seen_closed _ HI k0 Hk0 Hseen) as [A _]. rewrite Ec in A. congruence.
+    + rewrite nth_upd_other by exact Hne. exact (i_seen_closed _ HI k0 Hk0 Hseen).
+Qed.
+
+Lemma inv_TConsTake s j s' : Inv s -> step s (TConsTake j) = Some s' -> Inv s'.
+Proof.
+  intros HI Hs. destruct (step_TConsTake _ _ _ Hs) as (p & c & v & b & Hcn & Hc & Hb & ->).
+  pose proof (conss_lt _ _ _ HI Hcn) as Hj.
+  destruct (chn_some _ _ _ Hc) as [Ec Hkl].
+  constructor; try same HI; try (fin HI; fail).
+  - intros i Hi. unfold chn. simpl in *.
+    destruct (Nat.eq_dec (nin s + j) i) as [<-|Hne].
+    + rewrite nth_upd_same by exact Hkl. simpl.
+      pose proof (i_cap _ HI (nin s + j) Hi) as A. rewrite Ec, Hb in A. simpl in A. lia.
+    + rewrite nth_upd_other by exact Hne. exact (i_cap _ HI i Hi).
+  - intros k0 Hk0. unfold chn. simpl in *.
+    rewrite nth_upd_other by lia. exact (i_in _ HI k0 Hk0).
+  - intros j0 Hj0. unfold vals, out_seq, chn. simpl in *.
+    destruct (Nat.eq_dec j j0) as [->|Hne].
+    + rewrite nth_upd_same by exact Hkl. rewrite nth_snoc_at_same by (rewrite (i_taken _ HI); exact Hj0).
+      simpl. pose proof (i_out _ HI j0 Hj0) as A. unfold vals, out_seq in A. rewrite A, Ec, Hb.
+      rewrite <- app_assoc. reflexivity.
+    + rewrite nth_upd_other by lia. rewrite nth_snoc_at_other by exact Hne. exact (i_out _ HI j0 Hj0).
+  - intros k0 Hk0 Hseen. unfold chn. simpl in *.
+    rewrite nth_upd_other by lia. exact (i_seen_closed _ HI k0 Hk0 Hseen).
+Qed.
+
+Lemma sel_unseen s pos k :
+  Inv s -> pc s = LLoop -> sel s pos = Some k -> k < nin s /\ nth k (seen_closed s) false = false.
+Proof.
+  intros HI Epc Hsel. pose proof (i_sel _ HI) as S. pose proof (i_kind _ HI) as K.
+  unfold sel_ok, sel in *. rewrite Epc in S. simpl in S.
+  destruct (knd s) eqn:Ek.
+  - destruct (Nat.eqb pos 0); inversion Hsel; subst. split; [lia|].
+    destruct (nth 0 (seen_closed s) false); [|reflexivity]. destruct S as [_ S]. discriminate (S eq_refl).
+  - destruct (nth_error (live s) pos) as [[|]|] eqn:El; inversion Hsel; subst.
+    destruct (nth_error_nth_len _ _ _ false El) as [E1 E2]. rewrite (i_live _ HI) in E2.
+    split; [exact E2|]. destruct S as (A & _). specialize (A k E2). rewrite E1 in A.
+    destruct (nth k (seen_closed s) false); [discriminate|reflexivity].
+  - destruct (nth_error (live s) pos) as [[|]|] eqn:El; inversion Hsel; subst.
+    destruct (nth_error_nth_len _ _ _ false El) as [E1 E2]. rewrite (i_live _ HI) in E2.
+    split; [exact E2|]. destruct S as (A & _). specialize (A k E2). rewrite E1 in A.
+    destruct (nth k (seen_closed s) false); [discriminate|reflexivity].
+  - destruct S as (_ & A & _). apply A. eapply nth_error_In; eauto.
+  - destruct (Nat.eqb pos 0); inversion Hsel; subst. split; [lia|].
+    destruct (nth 0 (seen_closed s) false); [|reflexivity]. destruct S as [_ S]. discriminate (S eq_refl).
+Qed.
+
+Lemma sel_ok_frame s s' :
+  knd s' = knd s -> nin s' = nin s -> seen_closed s' = seen_closed s -> live s' = live s ->
+  ndone s' = ndone s -> cases s' = cases s -> ret_pc (pc s') = ret_pc (pc s) -> sel_ok s -> sel_ok s'.
+Proof. unfold sel_ok. intros -> -> -> -> -> -> ->. auto. Qed.
+
+Lemma hol_cases s k v j :
+  (hand_or_loop s k v j = LHand k v j /\ ((knd s = KRep /\ j < nout s) \/ (knd s <> KRep /\ j = 0)))
+  \/ (hand_or_loop s k v j = LLoop /\ ((knd s = KRep /\ nout s <= j) \/ (knd s <> KRep /\ j <> 0))).
+Proof.
+  unfold hand_or_loop. destruct (knd s) eqn:Ek;
+    try (destruct j; [left; split; [reflexivity|right; split; [discriminate|reflexivity]]
+                     |right; split; [reflexivity|right; split; [discriminate|discriminate]]]).
+  destruct (Nat.ltb j (nout s)) eqn:E.
+  - apply Nat.ltb_lt in E. left. split; [reflexivity|]. left. auto.
+  - apply Nat.ltb_ge in E. right. split; [reflexivity|]. left. auto.
+Qed.
+
+(* the call received v from input k (k's channel state and its ghost [produced] already updated in s1) *)
+Lemma inv_take_value s s1 k v :
+  Inv s -> pc s = LLoop -> k < nin s ->
+  knd s1 = knd s -> nin s1 = nin s -> nout s1 = nout s -> pc s1 = pc s ->
+  length (prods s1) = nin s -> conss s1 = conss s -> length (chs s1) = length (chs s) ->
+  length (produced s1) = nin s -> gots s1 = gots s -> seen_closed s1 = seen_closed s ->
+  outs s1 = outs s -> taken s1 = taken s -> live s1 = live s -> ndone s1 = ndone s -> cases s1 = cases s ->
+  (forall i, i < nin s + nout s -> length (buf (chn s1 i)) <= cap (chn s1 i)) ->
+  (forall k0, k0 < nin s ->
+              nth k0 (produced s1) [] = (nth k0 (gots s) [] ++ (if Nat.eq_dec k k0 then [v] else [])) ++ buf (chn s1 k0)) ->
+  (forall j, j < nout s -> buf (chn s1 (nin s + j)) = buf (chn s (nin s + j))) ->
+  (forall k0, k0 < nin s -> nth k0 (seen_closed s) false = true -> closed (chn s1 k0) = true /\ buf (chn s1 k0) = []) ->
+  Inv (take_value s1 k v).
+Proof.
+  intros HI Epc Hk Eknd En Em Epc1 Hprods Econss Hchs Hproduced Egots Eseen Eouts Etaken Elive Endone Ecases
+         Hcap Hin Hout Hsc.
+  assert (Hh : hand s = []) by (unfold hand; rewrite Epc; reflexivity).
+  unfold take_value.
+  constructor; simpl; rewrite ?snoc_at_length, ?Eknd, ?En, ?Em, ?Econss, ?Egots, ?Eseen, ?Eouts, ?Etaken, ?Elive;
+    try same HI; try assumption.
+  - rewrite Hchs. same HI.
+  - (* hand *) intros k1 v1 j1 E. unfold hand_or_loop in E. rewrite Eknd, Em in E.
+    pose proof (i_out1 _ HI) as O. pose proof (i_kind _ HI) as K.
+    destruct (knd s) eqn:Ek; try (inversion E; subst; rewrite O by discriminate; repeat split; auto; lia).
+    destruct (Nat.ltb 0 (nout s)) eqn:E0; inversion E; subst. apply Nat.ltb_lt in E0. repeat split; auto; congruence.
+  - (* in *) intros k0 Hk0. rewrite (Hin k0 Hk0).
+    destruct (Nat.eq_dec k k0) as [->|Hne].
+    + rewrite nth_snoc_at_same by (rewrite (i_gots _ HI); exact Hk0). reflexivity.
+    + rewrite nth_snoc_at_other by exact Hne. rewrite app_nil_r. reflexivity.
+  - (* out *) intros j Hj. unfold vals, out_seq, chn in *. simpl. rewrite ?Eouts, ?Etaken, ?En.
+    rewrite (Hout j Hj). exact (i_out _ HI j Hj).
+  - (* sel *) eapply sel_ok_frame; try exact (i_sel _ HI); simpl; auto.
+    rewrite Epc. destruct (hol_cases s1 k v 0) as [[-> _]|[-> _]]; reflexivity.
+  - (* tags *) intros j Hj. unfold out_seq. simpl. rewrite ?Eouts. exact (i_tags _ HI j Hj).
+  - (* merge *) intros Hnk k0 Hk0. unfold out_seq, hand. simpl. rewrite ?Eouts.
+    assert (Ep : hand_or_loop s1 k v 0 = LHand k v 0).
+    { unfold hand_or_loop. rewrite Eknd. destruct (knd s); try reflexivity. congruence. }
+    rewrite Ep. rewrite from_app, from_single.
+    pose proof (i_merge _ HI Hnk k0 Hk0) as A. rewrite Hh, app_nil_r in A. unfold out_seq in A. rewrite A.
+    destruct (Nat.eq_dec k k0) as [->|Hne].
+    + rewrite Nat.eqb_refl. rewrite nth_snoc_at_same by (rewrite (i_gots _ HI); exact Hk0). reflexivity.
+    + apply Nat.eqb_neq in Hne as Hne'. rewrite Hne'. rewrite nth_snoc_at_other by exact Hne. apply app_nil_r.
+  - (* rep *) intros Hrk. pose proof (i_rep _ HI Hrk) as A. unfold rep_ok in *. rewrite Epc in A. simpl.
+    pose proof (i_kind _ HI) as K. rewrite Hrk in K.
+    assert (k = 0) by lia. subst k.
+    unfold hand_or_loop. rewrite Eknd, Hrk, Em.
+    destruct (Nat.ltb 0 (nout s)) eqn:E0.
+    + exists (nth 0 (gots s) []). split.
+      * rewrite nth_snoc_at_same by (rewrite (i_gots _ HI); lia). reflexivity.
+      * intros j' Hj'. unfold vals, out_seq in *. simpl. rewrite ?Eouts. simpl. apply A. exact Hj'.
+    + apply Nat.ltb_ge in E0. intros j' Hj'. lia.
+Qed.
+
+Lemma inv_on_closed s pos k c :
+  Inv s -> pc s = LLoop -> sel s pos = Some k -> nth_error (chs s) k = Some c -> buf c = [] -> closed c = true ->
+  Inv (on_closed s pos k).
+Proof.
+  intros HI Epc Hsel Hc Hb Hcl.
+  destruct (sel_unseen _ _ _ HI Epc Hsel) as [Hk Hun].
+  destruct (chn_some _ _ _ Hc) as [Ec _].
+  assert (Hh : hand s = []) by (unfold hand; rewrite Epc; reflexivity).
+  assert (Hsc : forall k0, k0 < nin s -> nth k0 (upd (seen_closed s) k true) false = true ->
+                           closed (chn s k0) = true /\ buf (chn s k0) = []).
+  { intros k0 Hk0. destruct (Nat.eq_dec k k0) as [->|Hne].
+    - intros _. rewrite Ec. auto.
+    - rewrite nth_upd_other by exact Hne. apply (i_seen_closed _ HI k0 Hk0). }
+  pose proof (i_sel _ HI) as S. pose proof (i_kind _ HI) as K.
+  unfold on_closed. unfold sel_ok, sel in S, Hsel. rewrite Epc in S. simpl in S.
+  destruct (knd s) eqn:Ek.
+  - (* KM1 *)
+    constructor; simpl; rewrite ?upd_length; try same HI; try assumption.
+    + discriminate.
+    + unfold sel_ok. simpl. rewrite Ek. destruct (Nat.eqb pos 0); inversion Hsel; subst.
+      rewrite nth_upd_same by (rewrite (i_seen _ HI); lia). split; auto.
+    + intros Hnk k0 Hk0. rewrite <- (i_merge _ HI Hnk k0 Hk0). rewrite Hh. reflexivity.
+    + congruence.
+  - (* KM2 *)
+    destruct (nth_error (live s) pos) as [[|]|] eqn:El; inversion Hsel; subst pos.
+    destruct S as (A & B & C).
+    cbv zeta. remember (Nat.eqb (S (ndone s)) (nin s)) as fin eqn:Efin. symmetry in Efin.
+    constructor; simpl; rewrite ?upd_length; try same HI; try assumption.
+    + intros k1 v1 j1 E. destruct fin; discriminate.
+    + unfold sel_ok. simpl. rewrite Ek. split; [|split].
+      * intros k0 Hk0. destruct (Nat.eq_dec k k0) as [->|Hne].
+        -- rewrite !nth_upd_same by (rewrite ?(i_live _ HI), ?(i_seen _ HI); exact Hk0). reflexivity.
+        -- rewrite !nth_upd_other by exact Hne. apply A. exact Hk0.
+      * rewrite count_true_upd by (rewrite ?(i_seen _ HI); assumption). congruence.
+      * destruct fin; simpl.
+        -- apply Nat.eqb_eq in Efin. exact Efin.
+        -- apply Nat.eqb_neq in Efin. lia.
+    + intros Hnk k0 Hk0. rewrite <- (i_merge _ HI Hnk k0 Hk0).
+      rewrite Hh. unfold hand. simpl. destruct fin; reflexivity.
+    + congruence.
+  - (* KM3 *)
+    destruct (nth_error (live s) pos) as [[|]|] eqn:El; inversion Hsel; subst pos.
+    destruct S as (A & B & C).
+    cbv zeta. remember (Nat.eqb (S (ndone s)) (nin s)) as fin eqn:Efin. symmetry in Efin.
+    constructor; simpl; rewrite ?upd_length; try same HI; try assumption.
+    + intros k1 v1 j1 E. destruct fin; discriminate.
+    + unfold sel_ok. simpl. rewrite Ek. split; [|split].
+      * intros k0 Hk0. destruct (Nat.eq_dec k k0) as [->|Hne].
+        -- rewrite !nth_upd_same by (rewrite ?(i_live _ HI), ?(i_seen _ HI); exact Hk0). reflexivity.
+        -- rewrite !nth_upd_other by exact Hne. apply A. exact Hk0.
+      * rewrite count_true_upd by (rewrite ?(i_seen _ HI); assumption). congruence.
+      * destruct fin; simpl.
+        -- apply Nat.eqb_eq in Efin. exact Efin.
+        -- apply Nat.eqb_neq in Efin. lia.
+    + intros Hnk k0 Hk0. rewrite <- (i_merge _ HI Hnk k0 Hk0).
+      rewrite Hh. unfold hand. simpl. destruct fin; reflexivity.
+    + congruence.
+  - (* KMR *)
+    destruct S as (A & B & C).
+    destruct (remove_unordered_1_spec _ _ _ A Hsel) as (R1 & R2 & _).
+    constructor; simpl; rewrite ?upd_length; try same HI; try assumption.
+    + discriminate.
+    + unfold sel_ok. simpl. rewrite Ek. split; [exact R1|]. split; [|discriminate].
+      intros k0. rewrite R2, B. destruct (Nat.eq_dec k k0) as [->|Hne].
+      * rewrite nth_upd_same by (rewrite (i_seen _ HI); exact Hk). split; [intros [_ X]; congruence | intros [_ X]; discriminate].
+      * rewrite nth_upd_other by exact Hne. split; [intros [X _]; exact X | intros X; split; [exact X | congruence]].
+    + intros Hnk k0 Hk0. rewrite <- (i_merge _ HI Hnk k0 Hk0). rewrite Hh. reflexivity.
+    + congruence.
+  - (* KRep *)
+    constructor; simpl; rewrite ?upd_length; try same HI; try assumption.
+    + discriminate.
+    + unfold sel_ok. simpl. rewrite Ek. destruct (Nat.eqb pos 0); inversion Hsel; subst.
+      rewrite nth_upd_same by (rewrite (i_seen _ HI); lia). split; auto.
+    + congruence.
+    + intros _. pose proof (i_rep _ HI Ek) as A. unfold rep_ok in *. rewrite Epc in A. simpl. exact A.
+Qed.
+
+Lemma inv_TLibRecv s pos s' : Inv s -> step s (TLibRecv pos) = Some s' -> Inv s'.
+Proof.
+  intros HI Hs. destruct (step_TLibRecv _ _ _ Hs) as [Epc Hcase].
+  destruct Hcase as [k c v b Hsel Hc Hb ->|k c Hsel Hc Hb Hcl ->|k c v q Hsel Hc Hb Hcl Hcap Hp ->].
+  - destruct (sel_unseen _ _ _ HI Epc Hsel) as [Hk Hun].
+    destruct (chn_some _ _ _ Hc) as [Ec Hkl].
+    apply inv_take_value with (s := s); simpl; rewrite ?upd_length; auto; try same HI.
+    + intros i Hi. unfold chn. simpl. destruct (Nat.eq_dec k i) as [->|Hne].
+      * rewrite nth_upd_same by exact Hkl. simpl. pose proof (i_cap _ HI i Hi) as A. rewrite Ec, Hb in A. simpl in A. lia.
+      * rewrite nth_upd_other by exact Hne. exact (i_cap _ HI i Hi).
+    + intros k0 Hk0. unfold chn. simpl. destruct (Nat.eq_dec k k0) as [->|Hne].
+      * rewrite nth_upd_same by exact Hkl. simpl. rewrite (i_in _ HI k0 Hk0), Ec, Hb. rewrite <- app_assoc. reflexivity.
+      * rewrite nth_upd_other by exact Hne. rewrite app_nil_r. exact (i_in _ HI k0 Hk0).
+    + intros j Hj. unfold chn. simpl. rewrite nth_upd_other by lia. reflexivity.
+    + intros k0 Hk0 Hs0. unfold chn. simpl. destruct (Nat.eq_dec k k0) as [->|Hne]; [congruence|].
+      rewrite nth_upd_other by exact Hne. exact (i_seen_closed _ HI k0 Hk0 Hs0).
+  - eapply inv_on_closed; eauto.
+  - destruct (sel_unseen _ _ _ HI Epc Hsel) as [Hk Hun].
+    destruct (chn_some _ _ _ Hc) as [Ec Hkl].
+    apply inv_take_value with (s := s); simpl; rewrite ?upd_length, ?snoc_at_length; auto; try same HI.
+    + intros k0 Hk0. destruct (Nat.eq_dec k k0) as [->|Hne].
+      * rewrite nth_snoc_at_same by (rewrite (i_produced _ HI); exact Hk0).
+        rewrite (i_in _ HI k0 Hk0). unfold chn in *. simpl. rewrite Ec, Hb. rewrite !app_nil_r. reflexivity.
+      * rewrite nth_snoc_at_other by exact Hne. rewrite app_nil_r. exact (i_in _ HI k0 Hk0).
+Qed.
+
+(* the value in hand was delivered to output j (the output channel / consumer already updated in s1) *)
+Lemma inv_sent s s1 k v j :
+  Inv s -> pc s = LHand k v j ->
+  knd s1 = knd s -> nin s1 = nin s -> nout s1 = nout s ->
+  length (prods s1) = nin s -> length (conss s1) = nout s -> length (chs s1) = length (chs s) ->
+  produced s1 = produced s -> gots s1 = gots s -> seen_closed s1 = seen_closed s ->
+  outs s1 = snoc_at (outs s) j (k, v) -> length (taken s1) = nout s ->
+  live s1 = live s -> ndone s1 = ndone s -> cases s1 = cases s ->
+  (forall i, i < nin s + nout s -> length (buf (chn s1 i)) <= cap (chn s1 i)) ->
+  (forall k0, k0 < nin s -> chn s1 k0 = chn s k0) ->
+  (forall j0, j0 < nout s ->
+              nth j0 (taken s1) [] ++ buf (chn s1 (nin s + j0))
+              = (nth j0 (taken s) [] ++ buf (chn s (nin s + j0))) ++ (if Nat.eq_dec j j0 then [v] else [])) ->
+  Inv (with_pc s1 (hand_or_loop s k v (S j))).
+Proof.
+  intros HI Epc Eknd En Em Hprods Hconss Hchs Eproduced Egots Eseen Eouts Htaken Elive Endone Ecases Hcap Hin Hout.
+  destruct (i_hand _ HI _ _ _ Epc) as (Hk & Hj & Hjz).
+  assert (Hh : hand s = [(k, v)]) by (unfold hand; rewrite Epc; reflexivity).
+  constructor; simpl; rewrite ?Eknd, ?En, ?Em, ?Eproduced, ?Egots, ?Eseen, ?Eouts, ?Elive, ?snoc_at_length;
+    try same HI; try assumption.
+  - rewrite Hchs. same HI.
+  - (* hand *) intros k1 v1 j1 E. destruct (hol_cases s k v (S j)) as [[E' C]|[E' _]]; rewrite E' in E; [|discriminate].
+    inversion E; subst. destruct C as [[C1 C2]|[_ C2]]; [|discriminate]. repeat split; auto. congruence.
+  - (* in *) intros k0 Hk0. unfold chn in *. simpl. rewrite (Hin k0 Hk0). exact (i_in _ HI k0 Hk0).
+  - (* out *) intros j0 Hj0. unfold vals, out_seq, chn in *. simpl. rewrite ?Eouts, ?En. rewrite (Hout j0 Hj0).
+    pose proof (i_out _ HI j0 Hj0) as A. unfold vals, out_seq, chn in A.
+    destruct (Nat.eq_dec j j0) as [->|Hne].
+    + rewrite nth_snoc_at_same by (rewrite (i_outs _ HI); exact Hj0). rewrite map_app, A. reflexivity.
+    + rewrite nth_snoc_at_other by exact Hne. rewrite app_nil_r. exact A.
+  - (* seen_closed *) intros k0 Hk0 Hs0. unfold chn in *. simpl. rewrite (Hin k0 Hk0). exact (i_seen_closed _ HI k0 Hk0 Hs0).
+  - (* sel *) eapply sel_ok_frame; try exact (i_sel _ HI); simpl; auto.
+    rewrite Epc. destruct (hol_cases s k v (S j)) as [[-> _]|[-> _]]; reflexivity.
+  - (* tags *) intros j0 Hj0. unfold out_seq. simpl. rewrite ?Eouts.
+    destruct (Nat.eq_dec j j0) as [->|Hne].
+    + rewrite nth_snoc_at_same by (rewrite (i_outs _ HI); exact Hj0).
+      apply Forall_app. split; [exact (i_tags _ HI j0 Hj0)|]. constructor; [exact Hk|constructor].
+    + rewrite nth_snoc_at_other by exact Hne. exact (i_tags _ HI j0 Hj0).
+  - (* merge *) intros Hnk k0 Hk0. specialize (Hjz Hnk). subst j.
+    assert (Ep : hand_or_loop s k v 1 = LLoop).
+    { unfold hand_or_loop. destruct (knd s); try reflexivity. congruence. }
+    unfold out_seq, hand. simpl. rewrite ?Eouts, Ep.
+    rewrite nth_snoc_at_same by (rewrite (i_outs _ HI); exact Hj). rewrite app_nil_r.
+    pose proof (i_merge _ HI Hnk k0 Hk0) as A. rewrite Hh in A. exact A.
+  - (* rep *) intros Hrk. pose proof (i_rep _ HI Hrk) as A. unfold rep_ok in *. rewrite Epc in A.
+    destruct A as (g0 & G & V). simpl.
+    assert (Vj : forall j', j' < nout s ->
+                 map snd (nth j' (snoc_at (outs s) j (k, v)) []) = if Nat.ltb j' (S j) then g0 ++ [v] else g0).
+    { intros j' Hj'. specialize (V j' Hj'). unfold vals, out_seq in V.
+      destruct (Nat.eq_dec j j') as [->|Hne].
+      - rewrite nth_snoc_at_same by (rewrite (i_outs _ HI); exact Hj'). rewrite map_app, V.
+        rewrite Nat.ltb_irrefl. replace (Nat.ltb j' (S j')) with true by (symmetry; apply Nat.ltb_lt; lia). reflexivity.
+      - rewrite nth_snoc_at_other by exact Hne. rewrite V.
+        destruct (Nat.ltb j' j) eqn:E1.
+        + apply Nat.ltb_lt in E1. replace (Nat.ltb j' (S j)) with true by (symmetry; apply Nat.ltb_lt; lia). reflexivity.
+        + apply Nat.ltb_ge in E1. replace (Nat.ltb j' (S j)) with false by (symmetry; apply Nat.ltb_ge; lia). reflexivity. }
+    destruct (hol_cases s k v (S j)) as [[E' _]|[E' C]]; rewrite E'.
+    + exists g0. split; [rewrite ?Egots; exact G|]. intros j' Hj'. simpl in Hj'. rewrite ?Em in Hj'. unfold vals, out_seq. simpl. rewrite ?Eouts. apply Vj. exact Hj'.
+    + destruct C as [[_ C]|[C _]]; [|congruence].
+      intros j' Hj'. simpl in Hj'. rewrite ?Em in Hj'. unfold vals, out_seq. simpl. rewrite ?Eouts, ?Egots. rewrite (Vj j' Hj'), G.
+      replace (Nat.ltb j' (S j)) with true by (symmetry; apply Nat.ltb_lt; lia). reflexivity.
+Qed.
+
+Lemma inv_TLibSend s s' : Inv s -> step s TLibSend = Some s' -> Inv s'.
+Proof.
+  intros HI Hs. destruct (step_TLibSend _ _ Hs) as [k v j c cn Epc Hc Hcn Hlen ->|k v j c p Epc Hc Hcn Hcap ->].
+  - destruct (i_hand _ HI _ _ _ Epc) as (Hk & Hj & _).
+    destruct (chn_some _ _ _ Hc) as [Ec Hkl].
+    match goal with |- Inv (with_pc ?s1 _) => apply (inv_sent s s1 k v j HI Epc) end;
+      simpl; rewrite ?upd_length; auto; try same HI.
+    + intros i Hi. unfold chn. simpl. destruct (Nat.eq_dec (nin s + j) i) as [<-|Hne].
+      * rewrite nth_upd_same by exact Hkl. simpl. rewrite app_length. simpl. lia.
+      * rewrite nth_upd_other by exact Hne. exact (i_cap _ HI i Hi).
+    + intros k0 Hk0. unfold chn. simpl. rewrite nth_upd_other by lia. reflexivity.
+    + intros j0 Hj0. unfold chn. simpl. destruct (Nat.eq_dec j j0) as [->|Hne].
+      * rewrite nth_upd_same by exact Hkl. simpl. unfold chn in Ec. rewrite Ec. rewrite !app_assoc. reflexivity.
+      * rewrite nth_upd_other by lia. rewrite app_nil_r. reflexivity.
+  - destruct (i_hand _ HI _ _ _ Epc) as (Hk & Hj & _).
+    destruct (chn_some _ _ _ Hc) as [Ec Hkl].
+    assert (Hb : buf c = []).
+    { pose proof (i_cap _ HI (nin s + j) ltac:(lia)) as A. rewrite Ec, Hcap in A. destruct (buf c); [reflexivity|simpl in A; lia]. }
+    match goal with |- Inv (with_pc ?s1 _) => apply (inv_sent s s1 k v j HI Epc) end;
+      simpl; rewrite ?upd_length, ?snoc_at_length; auto; try same HI.
+    + intros j0 Hj0. unfold chn in *. simpl. destruct (Nat.eq_dec j j0) as [->|Hne].
+      * rewrite nth_snoc_at_same by (rewrite (i_taken _ HI); exact Hj0). rewrite Ec, Hb. rewrite !app_nil_r. reflexivity.
+      * rewrite nth_snoc_at_other by exact Hne. rewrite app_nil_r. reflexivity.
+Qed.
+
+Theorem inv_step s l s' : Inv s -> step s l = Some s' -> Inv s'.
+Proof.
+  intros HI Hs. destruct l.
+  - eapply inv_LStart; eauto.
+  - eapply inv_LRet; eauto.
+  - eapply inv_LCmd; eauto.
+  - eapply inv_LPermit; eauto.
+  - eapply inv_LSent; eauto.
+  - eapply inv_LClosed; eauto.
+  - eapply inv_LRecvd; eauto.
+  - discriminate.
+  - eapply inv_TProdBuf; eauto.
+  - eapply inv_TProdClose; eauto.
+  - eapply inv_TLibRecv; eauto.
+  - eapply inv_TLibSend; eauto.
+  - eapply inv_TLibExit; eauto.
+  - eapply inv_TConsTake; eauto.
+Qed.
+
+Lemma inv_qstep s l s' : Inv s -> qstep s l = Some s' -> Inv s'.
+Proof.
+  intros HI Hs. destruct l; try (exact (inv_step _ _ _ HI Hs)).
+  simpl in Hs. destruct (quiescent s); inversion Hs; subst; exact HI.
+Qed.
+
+(* ---- initial states ---- *)
+Lemma nth_repeat_self {A} (x : A) n k : nth k (repeat x n) x = x.
+Proof.
+  destruct (nth_in_or_default k (repeat x n) x) as [H|H]; [|exact H]. eapply repeat_spec; eauto.
+Qed.
+
+Lemma init_chn k incaps outcaps i :
+  buf (chn (init_gen k incaps outcaps) i) = [] /\ closed (chn (init_gen k incaps outcaps) i) = false.
+Proof.
+  unfold chn. simpl.
+  destruct (nth_in_or_default i (map (fun c => mkCh c [] false) (incaps ++ outcaps)) dch) as [H|H].
+  - apply in_map_iff in H. destruct H as (c & <- & _). auto.
+  - rewrite H. auto.
+Qed.
+
+Lemma count_true_repeat_false n : count_true (repeat false n) = 0.
+Proof. unfold count_true. induction n; simpl; auto. Qed.
+
+Lemma inv_init_gen k incaps outcaps :
+  match k with KM1 | KRep => length incaps = 1 | KM2 => length incaps = 2 | KM3 => length incaps = 3 | KMR => True end ->
+  (k <> KRep -> length outcaps = 1) ->
+  Inv (init_gen k incaps outcaps).
+Proof.
+  intros Hk Ho.
+  constructor; simpl; rewrite ?repeat_length, ?map_length, ?app_length; auto.
+  - discriminate.
+  - intros i _. destruct (init_chn k incaps outcaps i) as [-> _]. simpl. lia.
+  - intros k0 _. destruct (init_chn k incaps outcaps k0) as [-> _]. rewrite !nth_repeat_self. reflexivity.
+  - intros j _. unfold vals, out_seq. simpl.
+    destruct (init_chn k incaps outcaps (length incaps + j)) as [-> _]. rewrite !nth_repeat_self. reflexivity.
+  - intros k0 _. rewrite nth_repeat_self. discriminate.
+  - unfold sel_ok. simpl. destruct k; simpl.
+    + rewrite nth_repeat_self. split; discriminate.
+    + split; [|split].
+      * intros k0 Hk0. rewrite (nth_indep _ false true) by (rewrite repeat_length; exact Hk0).
+        rewrite !nth_repeat_self. reflexivity.
+      * rewrite count_true_repeat_false. reflexivity.
+      * lia.
+    + split; [|split].
+      * intros k0 Hk0. rewrite (nth_indep _ false true) by (rewrite repeat_length; exact Hk0).
+        rewrite !nth_repeat_self. reflexivity.
+      * rewrite count_true_repeat_false. reflexivity.
+      * lia.
+    + split; [apply seq_NoDup|]. split; [|discriminate].
+      intros k0. rewrite in_seq, nth_repeat_self. split; [intros [_ H]; split; [exact H|reflexivity] | intros [H _]; lia].
+    + rewrite nth_repeat_self. split; discriminate.
+  - intros j _. unfold out_seq. simpl. rewrite nth_repeat_self. constructor.
+  - intros _ k0 _. unfold out_seq, hand. simpl. rewrite !nth_repeat_self. reflexivity.
+  - intros _. unfold rep_ok. simpl. intros j' _. unfold vals, out_seq. simpl. rewrite !nth_repeat_self. reflexivity.
+Qed.
+
+Lemma inv_init_merge incaps outcap : Inv (init_merge incaps outcap).
+Proof.
+  unfold init_merge. apply inv_init_gen.
+  - destruct incaps as [|a [|b [|c [|d l]]]]; simpl; auto.
+  - reflexivity.
+Qed.
+
+Lemma inv_init_replicate srccap dstcaps : Inv (init_replicate srccap dstcaps).
+Proof. unfold init_replicate. apply inv_init_gen; [reflexivity | congruence]. Qed.
+
+(* the shape of the scenario never changes *)
+Definition shape (s0 s : st) : Prop := knd s = knd s0 /\ nin s = nin s0 /\ nout s = nout s0.
+
+Lemma reachable_inv s0 s : Inv s0 -> reachable qstep s0 s -> Inv s /\ shape s0 s.
+Proof.
+  intros H0 Hr.
+  apply (invariant_rule qstep (fun s => Inv s /\ shape s0 s) s0); [split; [exact H0|unfold shape; auto]| |exact Hr].
+  intros s1 l s2 [HI (A & B & C)] Hs. split; [eapply inv_qstep; eauto|].
+  destruct l; try (destruct (step_frame _ _ _ Hs) as (F1 & F2 & F3 & _); unfold shape; repeat split; congruence).
+  simpl in Hs. destruct (quiescent s1); inversion Hs; subst. unfold shape; auto.
+Qed.
+
+(* ---- C12_chans_interleaving ---- *)
+Theorem chans_interleaving incaps outcap s :
+  reachable qstep (init_merge incaps outcap) s ->
+  forall k, k < length incaps ->
+    (* the values sent on out so far plus the value in hand, restricted to input k, are exactly the values
+       received from input k so far, in order *)
+    from k (out_seq s 0 ++ hand s) = nth k (gots s) []
+    (* everything the producer of input k has sent is received or still in k's buffer, in order *)
+    /\ nth k (produced s) [] = nth k (gots s) [] ++ buf (chn s k)
+    (* everything sent on out has been taken by the consumer or is in out's buffer, in order *)
+    /\ vals s 0 = nth 0 (taken s) [] ++ buf (chn s (length incaps))
+    (* out carries only values of the inputs *)
+    /\ Forall (fun p => fst p < length incaps) (out_seq s 0).
+Proof.
+  intros Hr k Hk.
+  destruct (reachable_inv _ _ (inv_init_merge incaps outcap) Hr) as [HI (Ek & En & Em)].
+  simpl in En, Em, Ek.
+  assert (Hnk : knd s <> KRep).
+  { rewrite Ek. destruct incaps as [|a [|b [|c [|d l]]]]; discriminate. }
+  rewrite <- En in *. split; [exact (i_merge _ HI Hnk k Hk)|]. split; [exact (i_in _ HI k Hk)|].
+  split.
+  - pose proof (i_out _ HI 0 ltac:(lia)) as A. rewrite Nat.add_0_r in A. exact A.
+  - apply (i_tags _ HI 0). lia.
+Qed.
+
+(* multiset form: the output so far (plus the value in hand) is a permutation of everything received *)
+Lemma perm_insert {A} (f g : nat -> list A) (a : nat) (x : A) ks :
+  NoDup ks -> In a ks ->
+  (forall k, g k = if Nat.eqb a k then x :: f k else f k) ->
+  Permutation (x :: concat (map f ks)) (concat (map g ks)).
+Proof.
+  intros Hnd Hin Hg. induction ks as [|k0 ks IH]; [destruct Hin|].
+  inversion Hnd as [|? ? Hnin Hnd']; subst. simpl.
+  destruct (Nat.eq_dec a k0) as [->|Hne].
+  - rewrite (Hg k0), Nat.eqb_refl. simpl. apply perm_skip.
+    replace (map g ks) with (map f ks); [apply Permutation_refl|].
+    apply map_ext_in. intros k Hk. rewrite Hg.
+    destruct (Nat.eqb k0 k) eqn:E; [apply Nat.eqb_eq in E; subst; contradiction|reflexivity].
+  - rewrite (Hg k0). apply Nat.eqb_neq in Hne as E. rewrite E.
+    destruct Hin as [Hin|Hin]; [congruence|].
+    eapply Permutation_trans; [apply Permutation_middle|].
+    apply Permutation_app_head. apply IH; assumption.
+Qed.
+
+Lemma from_perm n l :
+  Forall (fun p => fst p < n) l ->
+  Permutation (map snd l) (concat (map (fun k => from k l) (seq 0 n))).
+Proof.
+  induction l as [|[a x] l IH]; intros HF.
+  - simpl. replace (concat (map (fun k => from k []) (seq 0 n))) with (@nil Z); [constructor|].
+    induction (seq 0 n); simpl; auto.
+  - inversion HF as [|? ? Ha HF']; subst. simpl in Ha. simpl map at 1.
+    eapply Permutation_trans; [apply perm_skip; apply IH; exact HF'|].
+    apply perm_insert with (a := a); [apply seq_NoDup | apply in_seq; lia |].
+    intros k. unfold from. simpl. destruct (Nat.eqb a k); reflexivity.
+Qed.
+
+Lemma map_nth_seq {A} (l : list A) d : map (fun k => nth k l d) (seq 0 (length l)) = l.
+Proof.
+  induction l as [|x l IH]; [reflexivity|]. simpl. f_equal.
+  rewrite <- seq_shift, map_map. exact IH.
+Qed.
+
+Theorem chans_multiset incaps outcap s :
+  reachable qstep (init_merge incaps outcap) s ->
+  Permutation (map snd (out_seq s 0 ++ hand s)) (concat (gots s)).
+Proof.
+  intros Hr.
+  destruct (reachable_inv _ _ (inv_init_merge incaps outcap) Hr) as [HI (Ek & En & Em)].
+  simpl in En, Em, Ek.
+  assert (Hnk : knd s <> KRep).
+  { rewrite Ek. destruct incaps as [|a [|b [|c [|d l]]]]; discriminate. }
+  assert (HF : Forall (fun p => fst p < nin s) (out_seq s 0 ++ hand s)).
+  { apply Forall_app. split; [apply (i_tags _ HI 0); lia|].
+    unfold hand. destruct (pc s) eqn:Epc; constructor; [|constructor].
+    simpl. destruct (i_hand _ HI _ _ _ Epc) as [A _]. exact A. }
+  eapply Permutation_trans; [apply (from_perm (nin s)); exact HF|].
+  replace (map (fun k => from k (out_seq s 0 ++ hand s)) (seq 0 (nin s))) with (gots s); [apply Permutation_refl|].
+  rewrite <- (map_nth_seq (gots s) []) at 1. rewrite (i_gots _ HI).
+  apply map_ext_in. intros k Hk. apply in_seq in Hk. symmetry. apply (i_merge _ HI Hnk). lia.
+Qed.
+
+(* ---- C12_chans_terminates ---- *)
+Lemma filter_len_le {A} (f : A -> bool) l : length (filter f l) <= length l.
+Proof. induction l as [|x l IH]; simpl; [lia|]. destruct (f x); simpl; lia. Qed.
+
+Lemma count_true_all l : count_true l = length l -> forall k, k < length l -> nth k l false = true.
+Proof.
+  unfold count_true. induction l as [|b l IH]; intros H k Hk; simpl in *; [lia|].
+  destruct b; simpl in H.
+  - destruct k; [reflexivity|]. apply IH; lia.
+  - exfalso. pose proof (filter_len_le (fun b : bool => b) l) as F. lia.
+Qed.
+
+Lemma count_true_some_false l : count_true l < length l -> exists k, k < length l /\ nth k l false = false.
+Proof.
+  unfold count_true. induction l as [|b l IH]; intros H; simpl in *; [lia|].
+  destruct b; simpl in H.
+  - destruct IH as (k & Hk & E); [lia|]. exists (S k). split; [lia|exact E].
+  - exists 0. split; [lia|reflexivity].
+Qed.
+
+Lemma ret_all_seen s : Inv s -> ret_pc (pc s) = true -> forall k, k < nin s -> nth k (seen_closed s) false = true.
+Proof.
+  intros HI Hret k Hk. pose proof (i_sel _ HI) as S. pose proof (i_kind _ HI) as K. unfold sel_ok in S.
+  rewrite Hret in S.
+  destruct (knd s).
+  - assert (k = 0) by lia. subst. apply S. reflexivity.
+  - destruct S as (_ & B & C). apply count_true_all; rewrite (i_seen _ HI); [congruence|exact Hk].
+  - destruct S as (_ & B & C). apply count_true_all; rewrite (i_seen _ HI); [congruence|exact Hk].
+  - destruct S as (_ & B & C). specialize (C eq_refl).
+    destruct (nth k (seen_closed s) false) eqn:E; [reflexivity|].
+    exfalso. assert (X : In k (cases s)) by (apply B; auto). rewrite C in X. destruct X.
+  - assert (k = 0) by lia. subst. apply S. reflexivity.
+Qed.
+
+(* safety direction: once the call is about to return / has returned, every input is closed and drained
+   and everything that was ever sent into an input has been sent on the output *)
+Theorem chans_returned_only_when_done incaps outcap s :
+  reachable qstep (init_merge incaps outcap) s ->
+  ret_pc (pc s) = true ->
+  forall k, k < length incaps ->
+    closed (chn s k) = true /\ buf (chn s k) = [] /\ nth k (produced s) [] = from k (out_seq s 0).
+Proof.
+  intros Hr Hret k Hk.
+  destruct (reachable_inv _ _ (inv_init_merge incaps outcap) Hr) as [HI (Ek & En & Em)].
+  simpl in En, Em, Ek. rewrite <- En in Hk.
+  assert (Hnk : knd s <> KRep).
+  { rewrite Ek. destruct incaps as [|a [|b [|c [|d l]]]]; discriminate. }
+  destruct (i_seen_closed _ HI k Hk (ret_all_seen _ HI Hret k Hk)) as [A B].
+  split; [exact A|]. split; [exact B|].
+  rewrite (i_in _ HI k Hk), B, app_nil_r. rewrite <- (i_merge _ HI Hnk k Hk).
+  unfold hand. destruct (pc s); try discriminate; rewrite app_nil_r; reflexivity.
+Qed.
+
+(* progress: while the call is running, either one of its own steps is enabled, or it waits for an input that is
+   open and empty (its producer must send or close), or it waits for room in an output (its consumer must receive) *)
+Definition lib_enabled (s : st) : Prop := exists l, In l (LRet :: lib_taus s) /\ enabled s l = true.
+Definition waits_for_input (s : st) : Prop :=
+  pc s = LLoop /\ exists pos k, sel s pos = Some k /\ closed (chn s k) = false /\ buf (chn s k) = [].
+Definition waits_for_output (s : st) : Prop :=
+  exists k v j, pc s = LHand k v j /\ cap (chn s (nin s + j)) <= length (buf (chn s (nin s + j))).
+
+Lemma sel_pos_le s pos k : Inv s -> sel s pos = Some k -> pos < S (nin s).
+Proof.
+  intros HI H. pose proof (i_sel _ HI) as S. pose proof (i_kind _ HI) as K. unfold sel, sel_ok in *.
+  destruct (knd s).
+  - destruct (Nat.eqb pos 0) eqn:E; [apply Nat.eqb_eq in E; lia|discriminate].
+  - destruct (nth_error (live s) pos) eqn:E; [|discriminate].
+    assert (pos < length (live s)) by (apply nth_error_Some; congruence). rewrite (i_live _ HI) in *. lia.
+  - destruct (nth_error (live s) pos) eqn:E; [|discriminate].
+    assert (pos < length (live s)) by (apply nth_error_Some; congruence). rewrite (i_live _ HI) in *. lia.
+  - destruct S as (A & B & _).
+    assert (pos < length (cases s)) by (apply nth_error_Some; congruence).
+    assert (length (cases s) <= length (seq 0 (nin s))).
+    { apply NoDup_incl_length; [exact A|]. intros x Hx. apply in_seq. apply B in Hx. lia. }
+    rewrite seq_length in *. lia.
+  - destruct (Nat.eqb pos 0) eqn:E; [apply Nat.eqb_eq in E; lia|discriminate].
+Qed.
+
+Lemma recv_enabled s pos k :
+  Inv s -> pc s = LLoop -> sel s pos = Some k -> (closed (chn s k) = true \/ buf (chn s k) <> []) -> lib_enabled s.
+Proof.
+  intros HI Epc Hsel Hready.
+  destruct (sel_unseen _ _ _ HI Epc Hsel) as [Hk _].
+  exists (TLibRecv pos). split.
+  - right. unfold lib_taus. apply in_or_app. left. apply in_map. apply in_seq. pose proof (sel_pos_le _ _ _ HI Hsel). lia.
+  - unfold enabled, step. rewrite Epc, Hsel.
+    assert (Hc : nth_error (chs s) k = Some (chn s k)).
+    { unfold chn. apply nth_error_of_nth. rewrite (i_chs _ HI). lia. }
+    rewrite Hc. destruct (buf (chn s k)) eqn:Eb; [|reflexivity].
+    destruct Hready as [-> | X]; [reflexivity | congruence].
+Qed.
+
+Lemma progress_inv s :
+  Inv s -> pc s <> LInit -> pc s <> LDone -> lib_enabled s \/ waits_for_input s \/ waits_for_output s.
+Proof.
+  intros HI Hni Hnd.
+  destruct (pc s) as [| |k v j| |] eqn:Epc; try congruence.
+  - (* LLoop *)
+    assert (Hsome : (exists pos k, sel s pos = Some k) \/ (knd s = KMR /\ cases s = [])).
+    { pose proof (i_sel _ HI) as S. pose proof (i_kind _ HI) as K. unfold sel_ok in S. rewrite Epc in S. simpl in S.
+      unfold sel. destruct (knd s) eqn:Ek.
+      - left. exists 0, 0. reflexivity.
+      - destruct S as (A & B & C). rewrite B in C.
+        destruct (count_true_some_false (seen_closed s)) as (k & Hk & E); [rewrite (i_seen _ HI); exact C|].
+        rewrite (i_seen _ HI) in Hk. left. exists k, k.
+        assert (X : nth_error (live s) k = Some (nth k (live s) false)) by (apply nth_error_of_nth; rewrite (i_live _ HI); exact Hk).
+        rewrite X, (A k Hk), E. reflexivity.
+      - destruct S as (A & B & C). rewrite B in C.
+        destruct (count_true_some_false (seen_closed s)) as (k & Hk & E); [rewrite (i_seen _ HI); exact C|].
+        rewrite (i_seen _ HI) in Hk. left. exists k, k.
+        assert (X : nth_error (live s) k = Some (nth k (live s) false)) by (apply nth_error_of_nth; rewrite (i_live _ HI); exact Hk).
+        rewrite X, (A k Hk), E. reflexivity.
+      - destruct (cases s) as [|k0 cs] eqn:Ec; [right; auto|]. left. exists 0, k0. reflexivity.
+      - left. exists 0, 0. reflexivity. }
+    destruct Hsome as [(pos & k & Hsel)|[Ek Ec]].
+    + destruct (closed (chn s k)) eqn:Ecl.
+      * left. eapply recv_enabled; eauto.
+      * destruct (buf (chn s k)) eqn:Eb.
+        -- right. left. split; [exact Epc|]. exists pos, k. auto.
+        -- left. eapply recv_enabled; eauto. right. congruence.
+    + left. exists TLibExit. split.
+      * right. unfold lib_taus. apply in_or_app. right. simpl. auto.
+      * unfold enabled, step. rewrite Ek, Epc, Ec. reflexivity.
+  - (* LHand *)
+    destruct (i_hand _ HI _ _ _ Epc) as (Hk & Hj & _).
+    destruct (Nat.lt_ge_cases (length (buf (chn s (nin s + j)))) (cap (chn s (nin s + j)))) as [Hlt|Hge].
+    + left. exists TLibSend. split.
+      * right. unfold lib_taus. apply in_or_app. right. simpl. auto.
+      * unfold enabled, step. rewrite Epc.
+        assert (Hc : nth_error (chs s) (nin s + j) = Some (chn s (nin s + j))).
+        { unfold chn. apply nth_error_of_nth. rewrite (i_chs _ HI). lia. }
+        rewrite Hc.
+        destruct (nth_error (conss s) j) eqn:Ecn.
+        -- apply Nat.ltb_lt in Hlt. rewrite Hlt. reflexivity.
+        -- exfalso. apply nth_error_None in Ecn. rewrite (i_conss _ HI) in Ecn. lia.
+    + right. right. exists k, v, j. auto.
+  - (* LRetp *)
+    left. exists LRet. split; [left; reflexivity|]. unfold enabled, step. rewrite Epc. reflexivity.
+Qed.
+
+Theorem chans_progress incaps outcap s :
+  reachable qstep (init_merge incaps outcap) s -> pc s <> LInit -> pc s <> LDone ->
+  lib_enabled s \/ waits_for_input s \/ waits_for_output s.
+Proof.
+  intros Hr. destruct (reachable_inv _ _ (inv_init_merge incaps outcap) Hr) as [HI _]. apply progress_inv. exact HI.
+Qed.
+
+(* liveness direction of "returns iff": when every input is closed and drained and nothing is in hand, the call
+   needs nobody else: one of its own steps is enabled until it has returned *)
+Theorem chans_returns_when_done incaps outcap s :
+  reachable qstep (init_merge incaps outcap) s -> pc s = LLoop \/ pc s = LRetp ->
+  (forall k, k < length incaps -> closed (chn s k) = true) ->
+  lib_enabled s.
+Proof.
+  intros Hr Hpc Hcl.
+  destruct (reachable_inv _ _ (inv_init_merge incaps outcap) Hr) as [HI (Ek & En & Em)]. simpl in En.
+  destruct (progress_inv s HI) as [A|[(Epc & pos & k & Hsel & Hc & _)|(k & v & j & Epc & _)]]; auto.
+  - destruct Hpc as [E|E]; rewrite E; discriminate.
+  - destruct Hpc as [E|E]; rewrite E; discriminate.
+  - destruct (sel_unseen _ _ _ HI Epc Hsel) as [Hk _]. rewrite Hcl in Hc by lia. discriminate.
+  - destruct Hpc as [E|E]; rewrite E in Epc; discriminate.
+Qed.
+
+(* ---- C12_replicate ---- *)
+Theorem replicate_correct srccap dstcaps s :
+  reachable qstep (init_replicate srccap dstcaps) s ->
+  let got := nth 0 (gots s) [] in
+  (* the source's values are received in order, none lost *)
+  nth 0 (produced s) [] = got ++ buf (chn s 0)
+  /\ (forall j, j < length dstcaps ->
+       (* destination j has been sent a prefix of what was received: all of it, or all but the value in hand;
+          destinations earlier in the list get the value in hand first *)
+       (match pc s with
+        | LHand _ v j0 => exists g0, got = g0 ++ [v] /\ vals s j = if Nat.ltb j j0 then got else g0
+        | _ => vals s j = got
+        end)
+       (* and what was sent to it is what its consumer took plus what sits in its buffer *)
+       /\ vals s j = nth j (taken s) [] ++ buf (chn s (1 + j)))
+  (* the call returns only when the source is closed and drained and every destination has been sent everything *)
+  /\ (ret_pc (pc s) = true ->
+      closed (chn s 0) = true /\ buf (chn s 0) = [] /\ forall j, j < length dstcaps -> vals s j = nth 0 (produced s) []).
+Proof.
+  intros Hr got.
+  destruct (reachable_inv _ _ (inv_init_replicate srccap dstcaps) Hr) as [HI (Ek & En & Em)].
+  simpl in Ek, En, Em.
+  pose proof (i_rep _ HI Ek) as R. unfold rep_ok in R.
+  pose proof (i_in _ HI 0 ltac:(lia)) as I0.
+  split; [exact I0|]. split.
+  - intros j Hj. rewrite <- Em in Hj. split.
+    + destruct (pc s) eqn:Epc; try (apply R; exact Hj).
+      destruct R as (g0 & G & V). exists g0. split; [exact G|]. rewrite (V j Hj). unfold got. rewrite G. reflexivity.
+    + pose proof (i_out _ HI j Hj) as A. rewrite En in A. exact A.
+  - intros Hret.
+    destruct (i_seen_closed _ HI 0 ltac:(lia) (ret_all_seen _ HI Hret 0 ltac:(lia))) as [A B].
+    split; [exact A|]. split; [exact B|]. intros j Hj. rewrite <- Em in Hj.
+    rewrite I0, B, app_nil_r. destruct (pc s); try discriminate; apply R; exact Hj.
+Qed.
+
+Theorem replicate_progress srccap dstcaps s :
+  reachable qstep (init_replicate srccap dstcaps) s -> pc s <> LInit -> pc s <> LDone ->
+  lib_enabled s \/ waits_for_input s \/ waits_for_output s.
+Proof.
+  intros Hr. destruct (reachable_inv _ _ (inv_init_replicate srccap dstcaps) Hr) as [HI _]. apply progress_inv. exact HI.
+Qed.
+End CMP.
